@@ -97,6 +97,7 @@ func (propC19) Gen(seed uint64, tier string, idx int) *Plan {
 		p.Panics = map[string]int{"proxy.attempt": pickS(r, []int{30, 100, 300})}
 		p.Sub += "/panics"
 	}
+	stmtYields(r, p, 300)
 	p.Deadline = 60 * time.Second
 	p.Settle = 4 * time.Second // read time-outs and disconnect grace periods must have run out
 	return p
@@ -121,6 +122,10 @@ func (propC19) Prepare(r *Run) {
 				ledger[c.URL]--
 			}
 		}
+		pend := map[string]int64{}
+		for k, v := range st.Rec.SelPending {
+			pend[k] = v
+		}
 		st.Rec.mu.Unlock()
 		report := func(class, f string, a ...any) {
 			if !seen[class] {
@@ -132,12 +137,13 @@ func (propC19) Prepare(r *Run) {
 			if g < 0 {
 				report("C19/gauge-negative", "gauge of %s is %d", url, g)
 			}
-			if g != ledger[url] {
-				report("C19/gauge-differs-from-attempts-in-flight", "gauge of %s is %d but increments-decrements = %d", url, g, ledger[url])
+			// updates that have started but not returned may or may not be in the gauge yet
+			if g < ledger[url]-pend["inc|"+url] || g > ledger[url]+pend["dec|"+url] {
+				report("C19/gauge-differs-from-attempts-in-flight", "gauge of %s is %d but increments-decrements = %d (%d increments and %d decrements still under way)", url, g, ledger[url], pend["inc|"+url], pend["dec|"+url])
 			}
 		}
 		for url, l := range ledger {
-			if _, ok := gauges[url]; !ok && l != 0 {
+			if _, ok := gauges[url]; !ok && l-pend["inc|"+url] > 0 {
 				report("C19/gauge-differs-from-attempts-in-flight", "no gauge for %s but increments-decrements = %d", url, l)
 			}
 		}
